@@ -49,16 +49,16 @@ type wobs struct {
 }
 
 type cobs struct {
-	op          string // play | pause | leave
-	cs, cd      int64
-	k           int   // callbacks when the operation returned
-	k0          int   // callbacks when it started
-	closed      int64 // leave: stamp of OnSessionClose (0: none seen)
-	graceful    bool  // leave after a drain at the end of the scenario
-	drainK      int
-	first       bool // play: includes connect + SETUPs
-	err         error
-	hadSession  bool
+	op         string // play | pause | leave
+	cs, cd     int64
+	k          int   // callbacks when the operation returned
+	k0         int   // callbacks when it started
+	closed     int64 // leave: stamp of OnSessionClose (0: none seen)
+	graceful   bool  // leave after a drain at the end of the scenario
+	drainK     int
+	first      bool // play: includes connect + SETUPs
+	err        error
+	hadSession bool
 }
 
 type aobs struct {
@@ -130,10 +130,10 @@ type harness struct {
 	mu      sync.Mutex
 	sessRdr map[*gortsplib.ServerSession]*reader
 
-	fp     map[fpKey][]int
-	writes []wobs
-	curErr []byte
-	notes  []string
+	fp       map[fpKey][]int
+	writes   []wobs
+	curErr   []byte
+	notes    []string
 	progress atomic.Int64
 }
 
